@@ -79,6 +79,9 @@ def make_exc(kind):
         return OverflowError("bind(): port must be 0-65535. (injected)")  # what connect((h, 70000)) raises
     if kind == "refused":
         return ConnectionRefusedError(errno.ECONNREFUSED, "Connection refused (injected)")
+    if kind == "nosocket":
+        # what socket(AF_INET6, ...) raises on a host without that protocol family
+        return OSError(errno.EAFNOSUPPORT, "Address family not supported by protocol (injected: no socket for this server)")
     if kind == "unreach":
         return OSError(errno.ENETUNREACH, "Network is unreachable (injected)")
     if kind in ("timeout", "timeout_delivered", "timeout_partial"):
@@ -297,6 +300,13 @@ class FakeNet:
         if k:
             raise make_exc(k)
         owner = _find_owner()
+        if owner is not None:
+            # server health "nosocket": no socket can be created for any address of that server (the failure arrives
+            # before connect(), inside the address loop of the client) - one failed contact per attempt
+            for sa in self._owner_addrs(owner, family):
+                if getattr(self.endpoints.get(sa), "health", "up") == "nosocket":
+                    self.contacts.append((self.clock.now() if self.clock else None, sa, False, self.ctx.call))
+                    raise self.health_exc("nosocket")
         with self.lock:
             s = FakeSocket(self, family, len(self.socks), owner)
             s.sock_type, s.sock_proto = type, proto
@@ -309,6 +319,25 @@ class FakeNet:
                     self.alarm("TWO_OPEN_SOCKETS", "owner %s opens socket %d while %r still open"
                                % (_oname(owner), s.sid, others))
         return s
+
+    def _owner_addrs(self, owner, family):
+        """The socket addresses of ``family`` that the owner's configured server resolves to."""
+        spec = getattr(owner, "server", None)
+        if isinstance(spec, (str, bytes)):
+            return [spec] if family == self.AF_UNIX else []
+        try:
+            host, port = spec
+            port = int(port)
+        except (TypeError, ValueError):
+            return []
+        res = self.dns.get((host, port))
+        if not res and isinstance(host, str):
+            low = host.lower()
+            for (h_, p_), r_ in self.dns.items():
+                if p_ == port and isinstance(h_, str) and h_.lower() == low:
+                    res = r_
+                    break
+        return [sa for fam, sa in (res or []) if fam == family]
 
     # -- ledger queries -----------------------------------------------------------
     def open_sockets(self):
